@@ -220,6 +220,8 @@ class _CrashJudge:
                 self.txns.pop()     # the torn transaction is gone
             # a clean close (or the recovery after the tear) flushes/replays everything: earlier straddles are settled
             self.straddles = [] if base == "reopen" else [k for k in self.straddles if k < len(self.txns)]
+        if "H=nothing-to-tear" in impl:
+            return True              # the tear found an already flushed log: the rest of the case is not comparable
         outside = " H=" in impl
         body = impl.split(" H=")[0]
         if body == spec or body == "img=none":
